@@ -190,6 +190,14 @@ def gen_suite_instance(rng):
     labels = Labels()
     fail_budget = [1 if rng.chance(0.35) else 0]
     files = {}
+    dir_labels = {}
+    counter = [0]
+
+    def dlabel(d):
+        d = os.path.normpath(d)
+        if d not in dir_labels:
+            dir_labels[d] = labels.new()
+        return dir_labels[d]
 
     def mk_suite(rel_dir, depth, name):
         path = os.path.join(rel_dir, name)
@@ -220,6 +228,24 @@ def gen_suite_instance(rng):
                 cconf.insert(rng.below(len(cconf) + 1), ('status', rng.choice(['SKIP', 'FAIL', 'PASS'])))
             c = {'kind': 'case', 'conf': cconf}
             c.update(gen_contents(rng, labels, False, fam, fail_budget))
+            is_link = rng.chance(0.3)
+            if is_link:
+                # the case file as listed is a symbolic link to a file kept in ANOTHER directory (which has a home marker of its
+                # own and, mostly, an exactly.suite of its own): the case is the file as listed - its home directory and the
+                # exactly.suite beside it are those of the directory it is listed in, however it is run
+                counter[0] += 1
+                shared = 'shared%d' % counter[0]
+                c['link_target'] = os.path.join(shared, 'real.case')
+                dlabel(shared)
+                if rng.chance(0.7):
+                    dconf = [('actor', rng.choice([a for a in FAMILY if FAMILY[a] == fam and a != 'ADefault'] + ['ANull']))] \
+                        if fam != 'cmd' else []
+                    dec = {'kind': 'suite', 'conf': dconf, 'suites': [], 'cases': [], 'family': fam, 'decoy': True}
+                    dec.update(gen_contents(rng, labels, True, fam, fail_budget))
+                    files[os.path.join(shared, 'exactly.suite')] = dec
+            if is_link or rng.chance(0.4):
+                # an instruction whose outcome depends on the home directory: it writes the marker kept in a file there
+                c['setup'].insert(rng.below(len(c['setup']) + 1), ('home', dlabel(rel_dir)))
             files[os.path.join(rel_dir, cname)] = c
             s['cases'].append(cname)
         if rng.chance(0.15) and s['cases']:
@@ -246,17 +272,30 @@ def gen_suite_instance(rng):
                 else:
                     s['suites'].append(os.path.relpath(os.path.join(sub_dir, sub_name), rel_dir))
                 mk_suite(sub_dir, depth + 1, sub_name)
+                if rng.chance(0.2):
+                    # the suite file as listed is a symbolic link to a file in another directory: its cases are those beside
+                    # the link
+                    counter[0] += 1
+                    files[os.path.join(sub_dir, sub_name)]['link_target'] = os.path.join('sharedsuite%d' % counter[0], 'real.suite')
         return path
 
     root_name = 'exactly.suite' if rng.chance(0.6) else 'root.suite'
     root = mk_suite('.', 0, root_name)
-    return {'files': {os.path.normpath(k): v for k, v in files.items()}, 'root': os.path.normpath(root)}
+    files = {os.path.normpath(k): v for k, v in files.items()}
+    top_dirs = sorted({k.split(os.sep)[0] for k in files if os.sep in k and k.startswith('s0')})
+    return {'files': files, 'root': os.path.normpath(root), 'dir_labels': dir_labels,
+            # control: a whole sub-directory reached through a symbolic link to a directory
+            'dir_link': rng.choice(top_dirs) if top_dirs and rng.chance(0.25) else None,
+            # the standalone runs name case and suite by absolute paths
+            'abs_paths': rng.chance(0.5)}
 
 
 def mark_text(tag, el, log, family):
     if el[0] == 'act':
         word = 'Q%s%d' % (tag, el[1])
         return {'cmd': '$ echo %s >> %s' % (word, log), 'sh': 'echo %s >> %s' % (word, log), 'null': 'ignored %s' % word}[family]
+    if el[0] == 'home':
+        return '$ cat @[EXACTLY_HOME]@/homemark >> %s' % log
     _, l, fails = el
     return '$ echo Q%s%d >> %s%s' % (tag, l, log, '; false' if fails else '')
 
@@ -296,11 +335,34 @@ def materialise_suite_instance(inst, d, log):
     for rel, f in inst['files'].items():
         if f['kind'] == 'suite':
             fam_of[os.path.dirname(rel)] = f['family']
+    dl = inst.get('dir_link')
+
+    def phys(rel):
+        # where a path is kept on disk: the directory [dl] is a symbolic link to real_[dl]
+        parts = os.path.normpath(rel).split(os.sep)
+        if dl and parts[0] == dl:
+            parts[0] = 'real_' + dl
+        return os.path.join(d, *parts)
+
     for rel, f in inst['files'].items():
-        p = os.path.join(d, rel)
+        p = phys(rel)
         os.makedirs(os.path.dirname(p), exist_ok=True)
-        with open(p, 'w') as fh:
-            fh.write(file_text(f, log, fam_of[os.path.dirname(rel)]))
+        text = file_text(f, log, fam_of[os.path.dirname(rel)])
+        if f.get('link_target'):
+            t = phys(f['link_target'])
+            os.makedirs(os.path.dirname(t), exist_ok=True)
+            with open(t, 'w') as fh:
+                fh.write(text)
+            os.symlink(os.path.relpath(t, os.path.dirname(p)), p)
+        else:
+            with open(p, 'w') as fh:
+                fh.write(text)
+    for dr, l in inst.get('dir_labels', {}).items():
+        os.makedirs(phys(dr), exist_ok=True)
+        with open(os.path.join(phys(dr), 'homemark'), 'w') as fh:
+            fh.write('QS%d\n' % l)
+    if dl:
+        os.symlink('real_' + dl, os.path.join(d, dl))
 
 
 _LABEL = re.compile(r'^Q([SZYX])(\d+)$')
@@ -343,13 +405,14 @@ def observe_suite_instance(inst, d, sbx):
             if (rel, crel) in done:
                 continue
             done.add((rel, crel))
-            ident, text = run_alone(mp, ['--suite', rel, crel], d, scratch, log)
+            ap = (lambda x: os.path.join(d, x)) if inst.get('abs_paths') else (lambda x: x)
+            ident, text = run_alone(mp, ['--suite', ap(rel), ap(crel)], d, scratch, log)
             obs['alone'].append((crel, rel, ident, parse_log(text)))
             beside = os.path.normpath(os.path.join(os.path.dirname(crel), 'exactly.suite'))
             if beside in inst['files'] or f['family'] == 'cmd' or not inst['files'][crel]['act']:
                 # plain: beside exactly.suite; or no suite at all (only when the act phase of the case is written in the
                 # syntax of the default actor: what an unrelated actor makes of it is not this property's business)
-                ident, text = run_alone(mp, [crel], d, scratch, log)
+                ident, text = run_alone(mp, [ap(crel)], d, scratch, log)
                 obs['alone'].append((crel, None, ident, parse_log(text)))
     return obs
 
@@ -360,6 +423,8 @@ def c_cinstr(el, phase, shift=0):
         return '(IMark %s %s)' % (cN(el[1] + shift), b)
     if el[0] == 'act':
         return '(IAct %s)' % cN(el[1] + shift)
+    if el[0] == 'home':
+        return '(IMark %s BOk)' % cN(el[1])  # the marker of the home directory: not part of the case file's text
     if el[0] == 'actor':
         return '(IActor %s)' % el[1]
     if el[0] == 'status':
@@ -419,6 +484,9 @@ def suite_instance_term(inst, obs):
 def describe_suite_instance(inst, obs):
     fam_of = {os.path.dirname(rel): f['family'] for rel, f in inst['files'].items() if f['kind'] == 'suite'}
     return {'experiment': 'suite contents', 'root': inst['root'],
+            'symbolic links': {rel: f['link_target'] for rel, f in inst['files'].items() if f.get('link_target')},
+            'directory that is a symbolic link': inst.get('dir_link'), 'standalone runs by absolute paths': inst.get('abs_paths'),
+            'home markers (file homemark in each directory)': {k: 'QS%d' % v for k, v in inst.get('dir_labels', {}).items()},
             'files': {rel: file_text(f, 'LOG', fam_of[os.path.dirname(rel)]) for rel, f in inst['files'].items()},
             'observed_in_suite_run': [list(x) for x in obs['suite']],
             'observed_alone (case, --suite or None, identifier, markers)': [list(x) for x in obs['alone']]}
